@@ -208,6 +208,11 @@ where
         self.link_ops(&ops)?;
         let mut vm = VM::with_pointer(self.strict, ops, &self.working_dir);
         if let Some(path) = path {
+            // The file being built is the root of its import chain.
+            let root: Rc<str> = crate::path::normalize(path.clone())
+                .to_string_lossy()
+                .into();
+            vm = vm.with_import_stack(vec![root]);
             vm.set_path(path);
         }
         if self.validate_mode {
